@@ -15,6 +15,9 @@
 (*         raised, and fresh = the same call on a freshly built copy       *)
 (*  Move   Reroot / RerootNode / Rotate / Prune / UpPass between calls: g, nid, pre (before),   *)
 (*         g2, nid2, post (after); no property clause, only the chain      *)
+(*  Pass   fitch_down_pass / fitch_up_pass called directly with ONE shared *)
+(*         taxon_state_sets_map on several trees: kind, g, m, gm, mp_pre,  *)
+(*         mp_post (+ w, bylist, score, bychar, raised for a down pass)    *)
 (* A matrix is logged as symbols: [type, fund, gap, missing, amb, rows];   *)
 (* for type "dna" the IUPAC table below (the documented meaning of the     *)
 (* codes) is used, for "standard" the alphabet the driver defined.         *)
@@ -47,7 +50,10 @@ DnaAlpha == [fund |-> <<"A", "C", "G", "T">>, gap |-> "-", missing |-> "?",
                        [sym |-> "S", mem |-> <<"C", "G">>], [sym |-> "K", mem |-> <<"G", "T">>],
                        [sym |-> "V", mem |-> <<"A", "C", "G">>], [sym |-> "H", mem |-> <<"A", "C", "T">>],
                        [sym |-> "D", mem |-> <<"A", "G", "T">>], [sym |-> "B", mem |-> <<"C", "G", "T">>]>>]
-AlphaOf(m) == IF m.type = "dna" THEN DnaAlpha ELSE [fund |-> m.fund, gap |-> m.gap, missing |-> m.missing, amb |-> m.amb]
+\* a polymorphic cell "(01)" is a state set exactly like an ambiguity code "{01}" (DendroPy's taxon_state_sets_map
+\* gives both as the set of their fundamental states); for DNA the driver may define such extra multistate codes
+AlphaOf(m) == IF m.type = "dna" THEN [DnaAlpha EXCEPT !.amb = @ \o [i \in 1..Len(m.amb) |-> [sym |-> m.amb[i].sym, mem |-> m.amb[i].mem]]]
+              ELSE [fund |-> m.fund, gap |-> m.gap, missing |-> m.missing, amb |-> m.amb]
 FundIx(al, s) == (CHOOSE i \in 1..Len(al.fund) : al.fund[i] = s) - 1
 IsFund(al, s) == \E i \in 1..Len(al.fund) : al.fund[i] = s
 \* symbol -> cell (set of state indices; gap = K); {} = unknown symbol
@@ -125,6 +131,22 @@ JudgeScore(e) ==
             \o (IF e.attr # "" /\ e.raised = "" /\ CacheOf(e.post) # CacheAfter(g, cache, m, e.gm, FALSE)
                   THEN V("drift.CacheAfter", lc) ELSE None)
 
+\* ------------------------------------------------------------------ Pass: the pass functions used directly
+\* one taxon_state_sets_map object handed to fitch_down_pass / fitch_up_pass on several trees in sequence;
+\* mp_pre / mp_post = the contents of that map before / after the call (taxon code -> state sets)
+MapSeq(mp) == TLCEval([t \in 1..Len(mp) |-> TLCEval([j \in 1..Len(mp[t]) |-> SeqToSet(mp[t][j])])])
+JudgePass(i) ==
+    LET e == Tr[i]  g == e.g  m == AbsMatrix(e.m) IN
+    (IF e.mp_post # e.mp_pre THEN V("C16.Pure", "map_changed_by:" \o e.kind) ELSE None)
+    \o (IF i > 1 /\ Tr[i - 1].tid = e.tid /\ Tr[i - 1].action = "Pass" /\ Tr[i - 1].gm = e.gm /\ Tr[i - 1].mp_post # e.mp_pre
+          THEN V("drift.Chain", "map changed between logged calls") ELSE None)
+    \o (IF e.kind # "down_pass" THEN None
+        ELSE IF InputClass(g, m, e.w) # "ok" THEN V("drift.Precondition", InputClass(g, m, e.w))
+        ELSE IF ~Tractable(g, m, e.gm) THEN V("drift.TooLargeToJudge", "pass")
+        ELSE LET intact == MapSeq(e.mp_pre) = MapOf(m, e.gm)
+                 cls == "shared_map:" \o (IF intact THEN "intact" ELSE "altered") \o ":" \o GapName(e.gm) \o RootSuffix(g)
+             IN Against(Weighted(MinJudge(g, m, e.gm), e.w), e, cls))   \* the minimum for the ORIGINAL data
+
 \* two fresh-copy scores of the same data on two rootings / child orders of one unrooted tree
 RootInv(i) ==
     LET e == Tr[i]
@@ -144,7 +166,7 @@ Chain(i) ==
     LET e == Tr[i] IN
     IF i = 1 \/ e.action = "Table" THEN None
     ELSE LET q == Tr[i - 1] IN
-         IF q.tid # e.tid \/ q.action = "Table" \/ q.attr # e.attr THEN None
+         IF q.tid # e.tid \/ q.action \in {"Table", "Pass"} \/ q.attr # e.attr THEN None
          ELSE LET before == ById(e.nid, e.pre)  after == PostOf(q)
                   common == {a[1] : a \in before} \cap {a[1] : a \in after}
               IN IF {a \in before : a[1] \in common} = {a \in after : a[1] \in common} THEN None
@@ -154,6 +176,7 @@ Judge(i) ==
     LET e == Tr[i] IN
     CASE e.action = "Table" -> JudgeTable(e)
       [] e.action = "Score" -> Chain(i) \o JudgeScore(e) \o RootInv(i)
+      [] e.action = "Pass" -> JudgePass(i)
       [] e.action = "Move" -> Chain(i)
            \o (IF e.kind # "Prune" /\ TreeClass(e.g) = "ok" /\ TreeClass(e.g2) = "ok" /\ ~SameUnrootedTree(e.g, e.g2)
                  THEN V("drift.MoveChangedTree", e.kind) ELSE None)
